@@ -14,16 +14,17 @@ CONFIG = {
     "trusted_base": [
         "Lean 4.33.0 kernel; axioms allowed: propext, Classical.choice, Quot.sound (audited per theorem on every run)",
         "lean/GPy/C09/Model.lean: semantics of the atomic actions (Go sync.Mutex/Cond/Once, channel close, int counter; WaitGroup for the pre-fix witness) and the inlining of pushBusy/popBusy into the entry points",
-        "lean/GPy/C09/Spec.lean: state predicates (NoPanic, DoneSafe, CallbacksOnce, NoLateAdmission, CloseWaits, RejectAfterClose, DeadlockFree) and the observation monitor",
+        "lean/GPy/C09/Spec.lean: state predicates (NoPanic, DoneSafe, CallbacksOnce, NoLateAdmission, CloseWaits, RejectAfterClose, DeadlockFree), the observation monitor and the scheduling step (macroStep); theorem monitor_accepts: the monitor answers OK on every trace of scheduling steps of the regenerated program, so specV = OK is proved, not assumed",
         "verif/extract/lifecycle (go/ast): regenerates lean/GPy/C09/Generated.lean from stdlib/stdlib.go on every run; fails loudly on unknown statement shapes, on lifecycle fields touched elsewhere, and on a shared-state access without its yield point",
         "hook H1 (stdlib/verif_on.go, build tag verif): yield points; the real sync primitives are used unchanged, their semantics is assumed to be what Model.lean says",
-        "harness/c09.go: token-passing scheduler, goroutine identification via runtime.Stack, Go transcription of the monitor (c09Check) and checks/common.py",
+        "harness/c09.go: token-passing scheduler, goroutine identification and wait-state inspection via runtime.Stack, Go transcription of the monitor (c09Check) and checks/common.py",
+        "lean/GPy/C09/Search.lean (`gpymodel-C09 C09 search <seed>`): untrusted bounded BFS that only proposes schedules; a proposed schedule counts only when the real goroutines reproduce the violation",
     ],
     "assumptions": [
         "bodies terminate and do not fail; a body never calls Close or waits for Done on its own context (that case contradicts 'Close returns only after every admitted execution finished' and is excluded explicitly in DeadlockFree)",
         "ModuleInit always reaches its nested RunCode (the harness always supplies module code); failing compiles inside ModuleInit/ResolveAndCompile are treated as work that returns through the same deferred popBusy",
         "data-race freedom is shown in the model as 'every access to closed/closing/running happens with the mutex held' (theorem sync_access); the Go memory model itself is trusted",
-        "two goroutines racing for the just-released mutex cannot be ordered by the harness: the enumerated schedules give the woken Cond waiter / probe-released locker the mutex first; the theorems cover the other orders too",
+        "goroutines waiting inside mu.Lock() get the mutex in arrival order (sync.Mutex wakes its waiters FIFO; every other goroutine is parked at a yield point, so nobody barges): the harness confirms each arrival through the goroutine's wait state (runtime.Stack: sync.Mutex.Lock) before it releases the next one; schedules in which a NEW locker barges in front of an already queued waiter are not driven (equivalent to queueing it first); the theorems cover every order",
     ],
     "exhaustive": True,
     "dist_tokens": 1,
@@ -55,3 +56,22 @@ def pre(run):
         run.cov["fingerprints"] = json.load(open(FACTS)).get("fingerprints", {})
     except Exception:
         pass
+
+
+def extra(run):
+    """record what the bounded search over the regenerated program found (its schedules are ordinary cases of the
+    correspondence run: a reproduced one is reported by common.py as the VIOLATION's failing input)"""
+    import subprocess
+    exe = os.path.join(common.LEAN, ".lake", "build", "bin", "gpymodel-C09")
+    if not os.path.exists(exe):
+        return
+    try:
+        p = subprocess.run([exe, "C09", "search", "0" if getattr(run, "gen_tier", run.tier) != "thorough" else str(run.seed or 1)],
+                           stdout=subprocess.PIPE, stderr=subprocess.PIPE, text=True, timeout=1800)
+    except Exception as e:  # noqa: BLE001
+        run.cov["search"] = {"error": str(e)[:200]}
+        return
+    summ = [l for l in p.stderr.splitlines() if l.startswith("search:")]
+    found = [l.split("\t") for l in p.stdout.splitlines() if l.strip()]
+    run.cov["search"] = {"cmd": "gpymodel-C09 C09 search <0 = quick bounds | seed = thorough bounds>",
+                         "summary": summ[0] if summ else "", "violating_schedules": [{"input": f[0], "model": f[1]} for f in found][:8]}
